@@ -585,6 +585,12 @@ pub proof fn axiom_bytelits()
         b"Relationships"@ == n_relationships(), b"Relationship"@ == n_relationship(), b"Id"@ == k_id_cap(), b"Target"@ == k_target(),
         b"worksheet"@ == n_worksheet(), b"mergeCells"@ == n_mergecells(), b"mergeCell"@ == n_mergecell(), b"ref"@ == k_ref(),
 {}
+/// (proved) `slice == byte-string literal` (vstd: same length and pointwise equal) is equality of the byte sequences
+pub broadcast proof fn lemma_bytes_eq_array<const N: usize>(a: &[u8], b: &[u8; N])
+    ensures #[trigger] <[u8] as PartialEqSpec<[u8; N]>>::eq_spec(a, b) <==> a@ == b@
+{
+    if <[u8] as PartialEqSpec<[u8; N]>>::eq_spec(a, b) { assert(a@ =~= b@); }
+}
 proof fn lemma_names_distinct()
     ensures
         n_stylesheet() != n_numfmts(), n_stylesheet() != n_numfmt(), n_stylesheet() != n_cellxfs(), n_stylesheet() != n_xf(),
@@ -885,7 +891,7 @@ a.map_err(|e| -> (x: XlsxError) ensures x == \g<1>(e) { \g<1>(e) })?
 //@@ before /match number_formats\.get\(/
                                         proof { axiom_bytes_keyed_map(number_formats@, cow_ref(&a.value)); }
 //@@ body
-        broadcast use {axiom_cow_str_owned};
+        broadcast use {axiom_cow_str_owned, lemma_bytes_eq_array};
 //@@ before /let mut number_formats = /
         let ghost ev = xml.events();
         let ghost tot = st_part(ev);
@@ -930,8 +936,6 @@ a.map_err(|e| -> (x: XlsxError) ensures x == \g<1>(e) { \g<1>(e) })?
             }
 //@@ loop 1
                     invariant_except_break
-                        // (what the guard of this arm established)
-                        opos < ev.len() ==> ev[opos].kind is Start && ev[opos].local == n_numfmts(),
                         good ==> st.ctx is NumFmts,
                         good ==> st.root,
                     invariant
@@ -995,6 +999,10 @@ a.map_err(|e| -> (x: XlsxError) ensures x == \g<1>(e) { \g<1>(e) })?
                                             assert(dec(at[k].raw) == unesc(at[k].raw));
                                             assert(unesc(at[k].raw) is Some);
                                         }
+                                        let acc = NfAcc { id: id@, code: format@ };
+                                        if at[k].key == k_numfmtid() { assert(nf_fold(at, k + 1) == Some(NfAcc { id: at[k].raw, ..acc })); }
+                                        else if at[k].key == k_formatcode() { assert(nf_fold(at, k + 1) == Some(NfAcc { code: unesc(at[k].raw)->Some_0, ..acc })); }
+                                        else { assert(nf_fold(at, k + 1) == Some(acc)); }
                                     }
                                 }
 //@@ before /if !format\.is_empty\(\)/
@@ -1003,8 +1011,6 @@ a.map_err(|e| -> (x: XlsxError) ensures x == \g<1>(e) { \g<1>(e) })?
                                 proof { axiom_bytes_keyed_insert(number_formats@, id, format); }
 //@@ loop 3
                     invariant_except_break
-                        // (what the guard of this arm established)
-                        opos < ev.len() ==> ev[opos].kind is Start && ev[opos].local == n_cellxfs(),
                         good ==> st.ctx is CellXfs,
                         good ==> st.root,
                     invariant
